@@ -240,7 +240,7 @@ func cmdCheck(w *World, args []string, tier string, verbose bool) int {
 	internal := 0
 	kept := violations[:0]
 	for _, o := range violations {
-		if o.Answer != nil && o.Answer.Verdict == VUnknown && strings.Contains(o.Answer.Output, "(error ") && !strings.Contains(o.Answer.Output, "timeout") {
+		if o.Answer != nil && o.Answer.Verdict == VUnknown && allSolversRejected(o.Answer.Output) {
 			fmt.Printf("INTERNAL-ERROR property=%s obligation %s: the solvers rejected the generated query: %s\n", prop, o.Name, truncate(o.Answer.Output, 300))
 			internal++
 			continue
@@ -429,6 +429,21 @@ func selfTest(prop string) ([]map[string]any, int) {
 		out = append(out, rec)
 	}
 	return out, regress
+}
+
+// allSolversRejected: every solver of the race answered with an error (cvc5 alone rejects some
+// z3 syntax, that is not a malformed query).
+func allSolversRejected(out string) bool {
+	parts := strings.Split(out, " | ")
+	if len(parts) == 0 {
+		return false
+	}
+	for _, p := range parts {
+		if !strings.Contains(p, "(error ") {
+			return false
+		}
+	}
+	return true
 }
 
 func matchKnown(known []KnownFinding, prop string, o *Obligation) *KnownFinding {
